@@ -23,7 +23,10 @@ Definition is_nil {A} (l : list A) : bool := match l with [] => true | _ => fals
 Definition all_have_parent (pl cl : level) : bool :=
   forallb (fun c => zmem c (concat (map snd pl))) (nodes cl).
 
-(* the double loop building child_to_parent: None = RuntimeError *)
+(* the double loop building child_to_parent: None = RuntimeError.
+   A child that is already recorded is refused whoever its recorded parent is: another
+   parent ("has at least two parents") or this very parent ("is listed more than once as a
+   child of ...": the keys of a dict are visited once, so that is a repeat inside one list). *)
 Fixpoint scan_children (cl : level) (p : node) (cs : list Z) (c2p : list (Z * Z))
   : option (list (Z * Z)) :=
   match cs with
@@ -31,7 +34,7 @@ Fixpoint scan_children (cl : level) (p : node) (cs : list Z) (c2p : list (Z * Z)
   | c :: t =>
       if negb (zmem c (nodes cl)) then None
       else match zassoc c c2p with
-           | Some p' => if p' =? p then scan_children cl p t c2p else None
+           | Some _ => None
            | None => scan_children cl p t ((c, p) :: c2p)
            end
   end.
